@@ -579,6 +579,24 @@ theorem C02_roundtrip_transposed_witness :
     (compositeRun (nodeSem termNodes) ((acbWiring.roundtrip true [0, 1, 2] (List.range 12)).toGraph id [0] (List.range 12)) 100
       (S.init Store.init (fun _ => []))).fired = [0, 1, 2] := by decide +kernel
 
+/-- A ROUND SURVIVES A STATE ROUND TRIP: pickling / saving the graph between any two events of a history changes neither
+the trigger's memory nor anything it does afterwards — the history `h1`, a round trip, `h2` is the history `h1 ++ h2`
+(same final state, same firing flags), for every labelling, every trigger state and all histories -/
+theorem C02_roundtrip_keeps_round (lab : Nat → Label) (a : Acc) (h1 h2 : List Ev) :
+    ((a.run lab h1).roundtrip false).received = (a.run lab h1).received ∧
+    ((a.run lab h1).roundtrip false).run lab h2 = a.run lab (h1 ++ h2) ∧
+    a.flags lab h1 ++ ((a.run lab h1).roundtrip false).flags lab h2 = a.flags lab (h1 ++ h2) := by
+  refine ⟨rfl, ?_, ?_⟩
+  · rw [Acc.run_append]; rfl
+  · rw [Acc.flags_append]; rfl
+
+/-- SEEDED CHANGE C02-14 (the saved channel forgets what it has heard): `join << (a, b)`; `a` arrives; round trip; `b`
+arrives — the join does not fire, and the next round fires one arrival out of phase (at `a` alone) -/
+theorem C02_roundtrip_forgets_round_witness :
+    let t := (((fresh [1, 0]).step id (.arrive 0)).1).roundtrip true
+    (t.step id (.arrive 1)).2 = false ∧ (((t.step id (.arrive 1)).1).step id (.arrive 0)).2 = true ∧
+    ((((fresh [1, 0]).step id (.arrive 0)).1).roundtrip false |>.step id (.arrive 1)).2 = true := by decide
+
 /-! ## edits between wiring and running: `pull()` of a child, `replace_child` -/
 
 /-- PULL KEEPS THE WIRING: for every wiring and every pulled data tree, after `child.pull()` every emitter has its
@@ -709,3 +727,5 @@ end PwVerif.C02
 #print axioms PwVerif.C02.C02_replace_reversed_witness
 #print axioms PwVerif.C02.C02_exec_refines_queue
 #print axioms PwVerif.C02.C02_parked_emissions_witness
+#print axioms PwVerif.C02.C02_roundtrip_keeps_round
+#print axioms PwVerif.C02.C02_roundtrip_forgets_round_witness
